@@ -432,6 +432,36 @@ fn timeout_qc_cases(cx: &mut Cx, c: &Committee, rng: &mut impl Rng, good_commit:
         nested.signature = AggregateSignature::default();
         let m = ReplicaTimeout { view: c.view(view), high_vote: None, high_qc: Some(nested) };
         cx.verdict("TimeoutQC", "nested-qc-bad-signature", vtqc(&mk_with(m), c.genesis, c.epoch, &c.schedule), false);
+        // forged twin: one signer carries a genuine certificate for vote X, another signer (really) signs a
+        // message carrying a *different*, bogus certificate for the same vote X (too few signers / garbage
+        // aggregate). Both orders inside the certificate's message map are generated.
+        if set.len() >= 2 {
+            let genuine = mk_commit_qc(c, &nested_msg, &all);
+            let forgeries: Vec<(&str, CommitQC)> = vec![
+                ("subquorum-bitmap", mk_commit_qc(c, &nested_msg, &small)),
+                ("garbage-aggregate", { let mut q = genuine.clone(); q.signature = AggregateSignature::default(); q }),
+                ("aggregate-over-other-vote", { let mut m2 = nested_msg.clone(); m2.proposal.payload = rng.gen(); let mut q = genuine.clone(); q.signature = mk_commit_qc(c, &m2, &all).signature; q }),
+                ("single-signer", mk_commit_qc(c, &nested_msg, &[all[0]])),
+            ];
+            let (ia, ib) = (set[0], set[1]);
+            for (fname, forged) in forgeries {
+                if forged == genuine || forged.verify(c.genesis, c.epoch, &c.schedule).is_ok() {
+                    continue; // e.g. a one-validator committee: the "forgery" is genuine
+                }
+                let ma = ReplicaTimeout { view: c.view(view), high_vote: None, high_qc: Some(genuine.clone()) };
+                let mb = ReplicaTimeout { view: c.view(view), high_vote: None, high_qc: Some(forged) };
+                let mut t2 = TSpec { view: t.view, votes: t.votes.clone() };
+                t2.votes.retain(|(j, _)| *j != ia && *j != ib);
+                t2.votes.push((ia, ma.clone()));
+                t2.votes.push((ib, mb.clone()));
+                let q = mk_timeout_qc(c, &t2);
+                cx.rep.count(if ma < mb { "nested_forgery_after_genuine_in_map_order" } else { "nested_forgery_before_genuine_in_map_order" });
+                cx.verdict("TimeoutQC", &format!("nested-qc-forged-twin/{fname}"), vtqc(&q, c.genesis, c.epoch, &c.schedule), false);
+                // and through the wrappers that embed it
+                let nv = ReplicaNewView { justification: ProposalJustification::Timeout(q.clone()) };
+                cx.verdict("ReplicaNewView", &format!("nested-qc-forged-twin/{fname}"), catch(|| nv.verify(c.genesis, c.epoch, &c.schedule).is_ok()), false);
+            }
+        }
         // nested certificate swapped after signing (aggregate no longer covers the message)
         let mut q = good.clone();
         let g0 = groups[0].clone();
